@@ -1,5 +1,4 @@
 import IweModel.Props.C14
-
 #print axioms Iwe.C14.url_key_roundtrip_partial
 #print axioms Iwe.C14.safe_key_has_no_base_prefix
 #print axioms Iwe.C14.disk_key_path_roundtrip_partial
